@@ -40,6 +40,11 @@ RULE = ("random TFIM graphs (2..6 spins, chain/ring/chord, J of both signs, dyad
         "growing step / after a non-growing step), set_cutoff upwards, a rebuilt partner, and into_qmc() after k steps followed by more "
         "steps of the converted sampler; the oracle runs after EVERY public call per sampler object (cutoff never decreases, cutoff >= n, "
         "container length <= cutoff, swap exchanges n, conversion keeps n and the cutoff). "
+        "Tempering containers of Ising replicas, of generic replicas obtained by into_qmc and of directly built generic replicas "
+        "(initial cutoffs 1..3, beta ladder x2 so cold replicas grow at once) with sequences interleaving container timesteps(1), "
+        "single-replica timestep and serial/rayon tempering steps (accepted and rejected swaps, steps right after a growing step counted); "
+        "oracle on every replica after every call (cutoff never decreases, >= max of previous cutoffs after a tempering step, margin, "
+        "container length <= cutoff and = the cutoff the sweep used). "
         "After every real step one `step` case (prev cutoff, prev container length, n -> cutoff, container length) and one `sweep` "
         "case (slot occupancy before/after) are compared with the model rule. Non-trivial = the cutoff grew or n > 0 "
         "(tempering: replicas had different cutoffs); distinct = distinct case line.")
